@@ -78,3 +78,13 @@ PROPS['C06'] = dict(
     assumptions=[],
     domain=[],
 )
+
+PROPS['C15'] = dict(
+    title='Spelling corruption makes one bounded edit and never touches protected positions',
+    groups=[dict(template='c15_providers.rs')],
+    input_search=True,
+    claim='',
+    not_covered=[],
+    assumptions=[],
+    domain=[],
+)
